@@ -1,7 +1,7 @@
 use std::fs::File;
 use std::io::{Write, stdout};
 use std::path::Path;
-use std::{collections::HashMap, path::PathBuf};
+use std::{collections::BTreeMap, path::PathBuf};
 
 use anyhow::{Result, bail, ensure};
 use serde::{Deserialize, Serialize};
@@ -50,7 +50,7 @@ pub struct EditConfig {
     duplicate: Option<Vec<DuplicateMetadata>>,
 
     #[serde(skip_serializing_if = "Option::is_none")]
-    scene_cuts: Option<HashMap<String, bool>>,
+    scene_cuts: Option<BTreeMap<String, bool>>,
 
     #[serde(skip_serializing_if = "Option::is_none")]
     level6: Option<ExtMetadataBlockLevel6>,
@@ -80,7 +80,7 @@ pub struct ActiveArea {
     presets: Option<Vec<ActiveAreaOffsets>>,
 
     #[serde(skip_serializing_if = "Option::is_none")]
-    edits: Option<HashMap<String, u16>>,
+    edits: Option<BTreeMap<String, u16>>,
 }
 
 #[derive(Serialize, Deserialize, Default, Debug, Clone)]
@@ -432,7 +432,7 @@ impl EditConfig {
     fn set_scene_cuts_single_rpu(
         &self,
         rpu: &mut DoviRpu,
-        edits: &HashMap<String, bool>,
+        edits: &BTreeMap<String, bool>,
     ) -> Result<()> {
         // Allow passing "all" instead of a range
         // Do "all" presets before specific ranges
@@ -451,7 +451,7 @@ impl EditConfig {
     fn set_scene_cuts(
         &self,
         rpus: &mut [Option<DoviRpu>],
-        edits: &HashMap<String, bool>,
+        edits: &BTreeMap<String, bool>,
     ) -> Result<()> {
         let edits = edits.iter().filter(|e| e.0.to_lowercase() != "all");
 
@@ -545,7 +545,7 @@ impl ActiveArea {
         Ok(())
     }
 
-    fn do_edits(&self, edits: &HashMap<String, u16>, rpus: &mut [Option<DoviRpu>]) -> Result<()> {
+    fn do_edits(&self, edits: &BTreeMap<String, u16>, rpus: &mut [Option<DoviRpu>]) -> Result<()> {
         if let Some(presets) = &self.presets {
             println!("Editing active area offsets...");
 
